@@ -74,6 +74,9 @@ def pdus() -> list[tuple[Any, list[str]]]:
     ]
     for s in range(16):
         out += [(T.TDataConnected(s), ["individual"]), (T.TAck(s), ["individual"]), (T.TNak(s), ["individual"])]
+    # numbers the 4-bit field cannot carry: the constructors accept them, so the encoder has to refuse them
+    for s in (-1, 16, 17, 31, 64, 255, 256):
+        out += [(T.TDataConnected(s), ["individual"]), (T.TAck(s), ["individual"]), (T.TNak(s), ["individual"])]
     return out
 
 
@@ -82,6 +85,11 @@ def check_pdu(pdu: Any, dest: str) -> list[tuple[str, str]]:
     name = type(pdu).__name__
     try:
         octet = pdu.to_knx()
+    except Exception as exc:  # noqa: BLE001
+        if not 0 <= pdu.sequence_number <= 15:
+            return []  # refused: an unrepresentable number is not silently altered
+        return [(exc_sig(f"encoder-refuses-valid-pdu:{name}", exc), f"{pdu!r} ({dest}): {exc!r}")]
+    try:
         back = T.TPCI.resolve(octet, dst_is_group_address=grp, dst_is_zero=zero)
     except Exception as exc:  # noqa: BLE001
         return [(exc_sig(f"own-octet-rejected:{name}", exc), f"{pdu!r} ({dest}): {exc!r}")]
@@ -115,7 +123,7 @@ def run(ctx: Ctx) -> None:
     part.sample({"pdu": "TAck", "seq": 15, "dest": "individual"})
     ctx.merge(part)
     ctx.rule = ("complete: all 256 octets x {individual, group, broadcast} through TPCI.resolve against the TPDU table of Transport Layer 2 (written in the harness), "
-                "re-encoding compared on the transport bits (0xFC data / 0xFF control); every constructible PDU x sequence 0..15 x admissible destination encode->resolve. "
+                "re-encoding compared on the transport bits (0xFC data / 0xFF control); every constructible PDU x sequence 0..15 x admissible destination encode->resolve; numbered PDUs with sequence numbers -1, 16, 17, 31, 64, 255, 256 must be refused by the encoder or survive the round trip. "
                 "non-trivial = octets that were not rejected + all PDU cases")
 
 
